@@ -82,6 +82,7 @@ func runC17(opt *Options) int {
 		Opt:  opt,
 		Pkgs: []string{"generator", "cli", "config", "comments", "."},
 		Kernels: []layera.Kernel{
+			{Name: "K8.convertersindependent", Pkg: "config", Harness: "VerifHarness_C12_ConvertersIndependent", Unwind: 200, E2E: "c17", Stub: []string{"(*github.com/jmattheis/goverter/pkgload.PackageLoader).GetOneRaw"}},
 			kernelGenerateConverters("c17"),
 			{Name: "K8.generate", Pkg: "generator", Harness: "VerifHarness_C17_Generate", Unwind: 16, E2E: "c17", Stub: []string{"github.com/jmattheis/goverter/generator.generateConverter"}},
 			{Name: "K8.run", Pkg: "cli", Harness: "VerifHarness_C17_Run", Unwind: 16, E2E: "c17", Stub: []string{"github.com/jmattheis/goverter/cli.Parse", "github.com/jmattheis/goverter.GenerateConverters"}},
